@@ -749,9 +749,13 @@ func (ex *Executor) evalCallSpec(e *SExpr, env *SpecEnv) (Val, error) {
 		if path == nil {
 			path = []int{idx}
 		}
-		for _, step := range path {
+		for k, step := range path {
 			f := structOf(owner).Field(step)
 			if !isStruct(f.Type()) {
+				if k == len(path)-1 {
+					// pointer to a scalar field: the same term the executor uses for &x.f
+					return Val{T: App("faddr."+typeName(owner)+"."+f.Name(), SInt, ref), Ty: types.NewPointer(f.Type())}, nil
+				}
 				return Val{}, fmt.Errorf("addr: field %s is not a struct", f.Name())
 			}
 			ref = ex.subRef(env.st, owner, f.Name(), ref)
@@ -1092,11 +1096,24 @@ func (ex *Executor) evalLoc(e *SExpr, env *SpecEnv) (string, *Term, Sort, error)
 			return fieldMapName(owner, g.Field), base.T, srt, nil
 		}
 		idx, emb := findField(structOf(owner), e.Name)
-		if idx < 0 || emb != nil {
-			return "", nil, "", fmt.Errorf("modifies %s: no direct field", e)
+		if idx < 0 {
+			return "", nil, "", fmt.Errorf("modifies %s: no such field", e)
+		}
+		ref := base.T
+		if emb != nil {
+			// promoted field: walk through the embedded structs to the one that owns it
+			for _, step := range emb[:len(emb)-1] {
+				ef := structOf(owner).Field(step)
+				if !isStruct(ef.Type()) {
+					return "", nil, "", fmt.Errorf("modifies %s: promoted through a pointer", e)
+				}
+				ref = ex.subRef(env.st, owner, ef.Name(), ref)
+				owner = ef.Type()
+			}
+			idx = emb[len(emb)-1]
 		}
 		f := structOf(owner).Field(idx)
-		return fieldMapName(owner, f.Name()), base.T, sortOf(f.Type()), nil
+		return fieldMapName(owner, f.Name()), ref, sortOf(f.Type()), nil
 	}
 	if e.Kind == "index" {
 		base, err := ex.evalSpec(e.Args[0], env)
